@@ -13,7 +13,11 @@ from concurrent.futures import ProcessPoolExecutor
 from contextlib import redirect_stdout
 
 sys.path.insert(0, os.path.dirname(os.path.dirname(os.path.abspath(__file__))))
-ROOT = sys.argv[1] if len(sys.argv) > 1 else '/repo'
+ROOT = '/repo'
+ONLY = [a for a in sys.argv[1:] if not a.startswith('/')]        # optional: suffixes / names of the seeds to run (e.g. _16 _17 _18 or C07_11)
+for a_ in sys.argv[1:]:
+    if a_.startswith('/'):
+        ROOT = a_
 SEEDED = os.path.join(os.path.dirname(os.path.dirname(os.path.abspath(__file__))), 'seeded')
 
 
@@ -51,7 +55,7 @@ if __name__ == '__main__':
     def is_seed(n):
         mp = os.path.join(SEEDED, n, 'meta.json')
         return os.path.isfile(os.path.join(SEEDED, n, 'patch.diff')) and os.path.isfile(mp) and json.load(open(mp)).get('kind') != 'variant'
-    names = sorted(n for n in os.listdir(SEEDED) if is_seed(n))
+    names = sorted(n for n in os.listdir(SEEDED) if is_seed(n) and (not ONLY or any(n == o or n.endswith(o) for o in ONLY)))
     with ProcessPoolExecutor(max_workers=16) as ex:
         res = list(ex.map(one, names))
     miss = 0
